@@ -4,6 +4,7 @@ correspondence: the token stream of the model's writer (numerals formatted by th
                 mesh_writer::write produced; the model's reader on those tokens vs what mesh_reader returned
 oracle:         round trip on the implementation alone (same cells, types, triangles, coordinates within the
                 written precision) and declared counts = contents, by an independent parse of the file."""
+import re
 import random, math, json, os, shutil
 import vlib, tissue
 from vlib import hx, unhx
@@ -195,9 +196,18 @@ def run(ck):
             cases.append(gen_case(random.Random(sd), "c16_%d_%db" % (os.getpid(), i), rescale=rng.choice([1.37, -0.61, 3.0])))
         else:
             cases.append(gen_case(rng, "c16_%d_%d" % (os.getpid(), i)))
+    # a third of the populations written through the simulation's path are written by a process in which nested OpenMP parallelism is
+    # enabled with 8 threads (mesh_writer::write runs its two files in parallel sections; whatever they call in parallel then really is)
+    rng_n = random.Random(ck.seed * 7477 + 17)
+    ncases = [gen_case(rng_n, "c16_%d_n%d" % (os.getpid(), k)) for k in range(12 if ck.tier == "quick" else 150)]
+    for c_ in ncases:
+        c_["line"] = re.sub(r" (\d+)$", " 0", c_["line"]); c_["via"] = 0; c_["nested"] = True
+    nouts, ncr = vlib.run_lines_resilient([impl], [c["line"] for c in ncases], timeout=1200, env={"OMP_NUM_THREADS": "8", "OMP_MAX_ACTIVE_LEVELS": "3", "OMP_NESTED": "true"})
     outs, crashes = vlib.run_lines_resilient([impl], [c["line"] for c in cases], timeout=1200)
+    base_n = len(cases)
+    cases += ncases; outs += nouts; crashes += [(base_n + i_, info_) for i_, info_ in ncr]
     for bad, info in crashes[:2]:
-        ck.report(dict(input=cases[bad]["line"][:3000], error=info), oracle="driver_crash", what="i/o driver died: " + info[:200])
+        ck.report(dict(input=cases[bad]["line"][:3000], nested_openmp=bool(cases[bad].get("nested")), error=info), oracle="driver_crash", what="i/o driver died: " + info[:200])
     fails = []; broken = []; nontriv = 0; q = []; qi = []
     parsed = {}
     for ci, (c, out) in enumerate(zip(cases, outs)):
@@ -275,10 +285,10 @@ def run(ck):
         if key in seen:
             continue
         seen.add(key)
-        ck.report(dict(input=cases[ci]["line"][:200000]), oracle=key, key="vtk:" + key, what="write/read round trip violates " + f)
+        ck.report(dict(input=cases[ci]["line"][:200000], nested_openmp=bool(cases[ci].get("nested"))), oracle=key, key="vtk:" + key, what="write/read round trip violates " + f)
     if broken and not ck.violations:
         ci, d = broken[0]
-        ck.report(dict(input=cases[ci]["line"][:200000], difference=d, n_disagreements=len(broken)), unchecked="correspondence Vtk.v = mesh_writer / mesh_reader",
+        ck.report(dict(input=cases[ci]["line"][:200000], nested_openmp=bool(cases[ci].get("nested")), difference=d, n_disagreements=len(broken)), unchecked="correspondence Vtk.v = mesh_writer / mesh_reader",
                   what="model and implementation disagree on %d cases (%s); the property oracle found no failing input" % (len(broken), d))
     ck.cov["trusted_base"] = vlib.TRUSTED_BASE_COMMON + ["printf(\"%.4e\") and strtod of the C library enter the model as arguments (numeral type and its semantic function)", "character-level behaviour of std::regex is not modelled: the reader is modelled as the token scan it performs"]
     ck.assumptions = ["cells are valid closed meshes (every node slot is used after compaction)"]
@@ -287,5 +297,6 @@ def run(ck):
 def replay(ck, path):
     j = json.load(open(path))
     impl = vlib.build_driver("io")
-    print(vlib.run([impl], input=j["case"]["input"] + "\n", timeout=300).stdout[:2000])
+    env = {"OMP_NUM_THREADS": "8", "OMP_MAX_ACTIVE_LEVELS": "3", "OMP_NESTED": "true"} if j["case"].get("nested_openmp") else None
+    print(vlib.run([impl], input=j["case"]["input"] + "\n", timeout=300, env=env).stdout[:2000])
     return 0
